@@ -335,6 +335,73 @@ def gates(sx):
         env.close()
 
 
+def call_sites(sx):
+    """the library's own callers of the request engine (key press, set value, watercare, reminders): the first k replies
+    are lost, or another caller holds the connection for longer than the protocol timeout first - every transmission is
+    a freshly built request (next sequence number of its kind), the call succeeds on the first delivered reply and
+    nothing is sent after it"""
+    from sx.vloop import patched_time
+    from geckolib.async_spa import GeckoAsyncSpa
+    from geckolib.async_spa_descriptor import GeckoAsyncSpaDescriptor
+    from geckolib.driver import GeckoVersionProtocolHandler
+    from geckolib.spa_events import GeckoSpaEvent
+    env = Env()
+    try:
+        with patched_time(env.loop):
+            events = []
+
+            async def ev(e, **k):
+                events.append(e)
+            spa = GeckoAsyncSpa(CLI_ID, GeckoAsyncSpaDescriptor(SRC_ID, "spa", DEST), None, ev)
+            spa._protocol = env.proto
+            spa.pack_type, spa.config_version, spa.log_version = 10, 9, 9
+            spa._is_connected = True
+            env.loop._time = 1000.0
+            env.proto._sequence_counter_protocol = sx.int_("protocol_counter", 0, 191)
+            env.proto._sequence_counter_command = sx.int_("command_counter", 191, 255)
+            replies = {b"SPACK": b"PACKS", b"GETWC": b"WCGET\x01", b"SETWC": b"WCSET", b"REQRM": b"RMREQ"}
+            lost = sx.choice("replies_lost", 3)
+            busy = bool(sx.choice("connection_busy_first", 2))
+            mine = []
+
+            def on_send(data):
+                v = _verb(data)
+                if v == b"AVERS":
+                    return              # the other caller's request is never answered
+                mine.append(data)
+                spa._last_ping = env.loop.time()
+                if len(mine) > lost:
+                    env.loop.call_later(0.01, env.proto.datagram_received, replies[v], PARMS)
+            env.on_send = on_send
+            cmds = [("press", lambda: spa.async_press(1), b"SPACK", True),
+                    ("set_value", lambda: spa._on_async_set_value(100, 1, 5), b"SPACK", True),
+                    ("get_watercare", lambda: spa.async_get_watercare(), b"GETWC", False),
+                    ("set_watercare", lambda: spa.async_set_watercare(2), b"SETWC", False),
+                    ("get_reminders", lambda: spa.async_get_reminders(), b"REQRM", False)]
+            name, mk, verb, is_cmd = cmds[sx.choice("command", len(cmds))]
+            spa._last_ping = env.loop.time()
+            if busy:
+                # an unanswered two-attempt request of another caller occupies the connection for 2 x (T + pause) > T
+                env.loop.create_task(env.proto.get(
+                    lambda: GeckoVersionProtocolHandler.request(env.proto.get_and_increment_sequence_counter(False), parms=PARMS),
+                    None, 2))
+                env.loop.run_until(lambda: len(env.tr.sent) >= 1, max_time=1005.0)
+            env.loop.run_until_complete(mk(), max_time=2000.0)
+            off = content_offset(CLI_ID, SRC_ID)
+            seqs = [d[off + 5] for d in mine]
+            sx.observe("seqs", seqs)
+            sx.check(len(mine) == lost + 1 and all(_verb(d) == verb for d in mine),
+                     f"req.site.transmissions-stop-at-the-first-delivered-reply.{name}", lambda: f"{len(mine)} for {lost} lost")
+            lo, hi = (192, 255) if is_cmd else (1, 191)
+            from sx.core import And, Ite
+            ok = And(*[(q_ >= lo) & (q_ <= hi) for q_ in seqs], *[b == Ite(a < hi, a + 1, lo) for a, b in zip(seqs, seqs[1:])])
+            sx.check(ok, f"req.site.each-attempt-freshly-built.{name}", lambda: str(seqs))
+            sx.check(GeckoSpaEvent.ERROR_PROTOCOL_RETRY_COUNT_EXCEEDED not in events,
+                     f"req.site.succeeds-when-a-reply-was-delivered.{name}", lambda: str(events))
+    finally:
+        env.close()
+
+
 def units(tier):
     q = tier == "quick"
     R = 2 if q else 4
@@ -347,3 +414,4 @@ def units(tier):
     yield Unit("gates", gates)
     yield Unit("abnormal-holder", abnormal_holder)
     yield Unit("ping-gate", ping_gate)
+    yield Unit("call-sites", call_sites)
